@@ -12,12 +12,19 @@ from harness.util import guarded, stack
 
 ID = 'C17'
 LEVEL = 'proof'
-LEVEL_TEXT = ('Unbounded Lean theorems: (0) ALL SIZES of the hand-modelled 2-D surface codes '
+LEVEL_TEXT = ('Unbounded Lean theorems: (0) ALL SIZES of the hand-modelled surface codes '
               '(Properties/C17<Class>.lean): Toric2DCode (Lx,Ly>=2), Planar2DCode and RotatedPlanar2DCode (Lx,Ly>=1) have '
-              'IsDistance n H (min Lx Ly) on the matrices assembled from the hand-written lattice model, and code.d (min weight '
-              'over the listed logicals) equals min(Lx,Ly), for every lattice size - upper bound: a listed line; lower bound: '
-              'packing with lattice translates (consecutive translates of a logical line differ by the row/column of generators '
-              'between them, so any operator commuting with all generators meets every translate); (1) distance criterion and '
+              'IsDistance n H (min Lx Ly), Toric3DCode and XCubeCode (Lx,Ly,Lz>=2) have IsDistance n H (min Lx Ly Lz), Planar3DCode '
+              'and RotatedPlanar3DCode (Lx,Ly,Lz>=1) have IsDistance n H (min Lx (Ly*Lz)), on the matrices assembled from the '
+              'hand-written lattice model, and code.d (min weight over the listed logicals) equals that value, for every '
+              'lattice size - upper bound: a listed logical; lower bound: packing with lattice translates (consecutive '
+              'translates of a logical line differ by the row of generators between them, consecutive translates of a logical '
+              'plane by the slab of vertex generators between them, so any operator commuting with all generators meets every '
+              'translate; X-cube: Z lines are rigid, a line is equivalent to the product of three lines through the other '
+              'corners of a rectangle of rows of cubes, which still gives min(L) disjoint representatives); (0b) DEFORMED CODES: a '
+              'per-qubit permutation of {X,Y,Z} preserves weight, commutation and span, hence IsDistance and code.d '
+              '(distance_deformation_invariant, every n, H, d); so every deformed code of these seven classes (every name/axis '
+              'get_deformation accepts) has the same distance, for every size (distance_deformed); (1) distance criterion and '
               'packing bound for every valid [[n,k]] code (a '
               'non-trivial logical anticommutes with some listed logical, by C04; d pairwise disjoint representatives '
               'modulo the stabilizer group force weight >= d); (2) soundness of the executable certificate checker '
@@ -35,10 +42,14 @@ LEVEL_NOTE = ('trusted: Lean kernel + standard axioms; translator harness/regen_
               'd*d > n so disjoint representatives cannot exist, and the enumeration below d is too large): '
               'Color666PlanarCode L=3..6 and Color666ToricCode L=2..4; Color666PlanarCode L=3 is checked natively '
               '(native_checked, thorough tier: 5.7 million pure X/Z operators below d=7). Sizes beyond the table bound and deformed codes are evaluated natively '
-              'with the same proved-sound checker (trusted in addition: Lean compiler/runtime). All-sizes (unbounded '
-              'in L) distance theorems exist for Toric2DCode, Planar2DCode, RotatedPlanar2DCode only (undeformed codes; '
-              'trusted in addition: the correspondence harness tying the hand-written lattice models to the classes, as '
-              'in C01); the other 13 classes are covered by the bounded instance theorems (named ..._partial).')
+              'with the same proved-sound checker (trusted in addition: Lean compiler/runtime); deformation invariance of '
+              'the distance is proved in general (distance_deformation_invariant), so for deformed codes the native '
+              'evaluation is redundant with the undeformed instance theorem. All-sizes (unbounded in L) distance '
+              'theorems exist for Toric2DCode, Planar2DCode, RotatedPlanar2DCode, Toric3DCode, Planar3DCode, '
+              'RotatedPlanar3DCode, XCubeCode only '
+              '(undeformed and deformed; trusted in addition: the correspondence harness tying the hand-written '
+              'lattice models to the classes, as in C01); the other 9 classes are covered by the bounded instance '
+              'theorems (named ..._partial).')
 TECHNIQUE = ('Lean 4 proof: certificate-checker soundness (unbounded) + kernel-checked instance theorems over tables '
              'and certificates regenerated from the source; differential correspondence of code.d; independent '
              'meet-in-the-middle / MILP search for lighter logical operators on the implementation')
@@ -54,7 +65,8 @@ RULE = ('stream 1: one `dist` op per (class, size, deformation): model distance 
         'certificate (including deliberately wrong certificates / overstated d)')
 
 # all-sizes distance theorems of the hand-modelled classes (built and axiom-audited with C17)
-ALLSIZES_CLASSES = ['Toric2DCode', 'Planar2DCode', 'RotatedPlanar2DCode']
+ALLSIZES_CLASSES = ['Toric2DCode', 'Planar2DCode', 'RotatedPlanar2DCode', 'Toric3DCode', 'Planar3DCode',
+                    'RotatedPlanar3DCode', 'XCubeCode']
 PROPERTY_MODULES = ['PanqecVerif.Properties.C17'] + [f'PanqecVerif.Properties.C17{c}' for c in ALLSIZES_CLASSES]
 
 # instances of the regenerated tables for which no certificate is expected (see LEVEL_NOTE)
